@@ -8003,9 +8003,9 @@ fn compare_wire_values(a: Option<&WireValue>, b: Option<&WireValue>) -> std::cmp
         (Some(va), Some(vb)) => match (va, vb) {
             (WireValue::Int64(a), WireValue::Int64(b)) => a.cmp(b),
             (WireValue::Int32(a), WireValue::Int32(b)) => a.cmp(b),
-            (WireValue::Float64(a), WireValue::Float64(b)) => {
-                a.partial_cmp(b).unwrap_or(std::cmp::Ordering::Equal)
-            }
+            // IEEE total order: NaN must not compare Equal to everything, or the
+            // comparator is not a total preorder and `sort_by` may panic.
+            (WireValue::Float64(a), WireValue::Float64(b)) => a.total_cmp(b),
             (WireValue::String(a), WireValue::String(b)) => a.cmp(b),
             (WireValue::Bool(a), WireValue::Bool(b)) => a.cmp(b),
             (WireValue::Timestamp(a), WireValue::Timestamp(b)) => a.cmp(b),
@@ -8013,12 +8013,8 @@ fn compare_wire_values(a: Option<&WireValue>, b: Option<&WireValue>) -> std::cmp
             (WireValue::Null, _) => std::cmp::Ordering::Less,
             (_, WireValue::Null) => std::cmp::Ordering::Greater,
             // Cross-type numeric comparison
-            (WireValue::Int64(a), WireValue::Float64(b)) => (*a as f64)
-                .partial_cmp(b)
-                .unwrap_or(std::cmp::Ordering::Equal),
-            (WireValue::Float64(a), WireValue::Int64(b)) => a
-                .partial_cmp(&(*b as f64))
-                .unwrap_or(std::cmp::Ordering::Equal),
+            (WireValue::Int64(a), WireValue::Float64(b)) => (*a as f64).total_cmp(b),
+            (WireValue::Float64(a), WireValue::Int64(b)) => a.total_cmp(&(*b as f64)),
             // Cross-type: use type discriminant for stable ordering
             _ => wire_value_type_rank(va).cmp(&wire_value_type_rank(vb)),
         },
